@@ -124,7 +124,10 @@ def case_strategy(draw, tier):
         'extras': draw(st.lists(st.sampled_from([
             ['frobnicate', 3], ['custom_kind', {'value': 1}],
             ['#comment', 'free text'], ['# note', [1, 2]],
-            ['#', None], ['Min', 0], ['minimum', 5]]),
+            ['#', None], ['Min', 0], ['minimum', 5],
+            # names of multi-field relations are not field constraint kinds
+            ['lt', 5], ['gte', 1], ['eq', 'x'], ['lte', None], ['gt', 0],
+            ['constraint', 1], ['multi_field', 2]]),
             min_size=1, max_size=3, unique_by=lambda kv: kv[0])),
     }
 
